@@ -29,6 +29,19 @@ struct nni_taskq {
 
 static nni_taskq *nni_taskq_systq = NULL;
 
+#ifdef NNG_VERIF
+// Verification hook (add-only): number of asynchronous work items (queued
+// tasks and reap requests) that have been scheduled and not yet finished.
+// When it is zero, and the caller itself schedules nothing, the library is
+// quiescent.  See /verif/DESIGN.md, hook H2q.
+nni_atomic_int nni_verif_inflight;
+int
+nng_verif_inflight(void)
+{
+	return (nni_atomic_get(&nni_verif_inflight));
+}
+#endif
+
 static void
 nni_taskq_thread(void *self)
 {
@@ -54,6 +67,9 @@ nni_taskq_thread(void *self)
 				nni_cv_wake(&task->task_cv);
 			}
 			nni_mtx_unlock(&task->task_mtx);
+#ifdef NNG_VERIF
+			nni_atomic_dec(&nni_verif_inflight);
+#endif
 
 			nni_mtx_lock(&tq->tq_mtx);
 
@@ -184,6 +200,9 @@ nni_task_dispatch(nni_task *task)
 	}
 	nni_mtx_unlock(&task->task_mtx);
 
+#ifdef NNG_VERIF
+	nni_atomic_inc(&nni_verif_inflight);
+#endif
 	nni_mtx_lock(&tq->tq_mtx);
 	nni_list_append(&tq->tq_tasks, task);
 	nni_cv_wake1(&tq->tq_sched_cv); // waking just one waiter is adequate
